@@ -320,6 +320,33 @@ def trace_monitor(d, files, timeout=900):
     return allb
 
 
+CONF_RE = re.compile(r'^"<<\\"DRIFT\\", (\d+), (\d+), (.*)>>"$')
+
+
+def trace_conform(d, name, consts, trace_path):
+    """TLC (TraceConf.tla): is the recorded trace, command by command, a behaviour of RsActor.tla?
+    Returns the list of (run, text) where the code's events differ from the model's."""
+    mod = "Conf_" + name
+    write_wrapper(os.path.join(d, mod + ".tla"), mod, "TraceConf", consts)
+    write_cfg(os.path.join(d, mod + ".cfg"), consts)
+    env = {"TRACE": trace_path, "JAVA_TOOL_OPTIONS": "-Dtlc2.tool.queue.IStateQueue=StateDeque"}
+    cmd = ["java", "-XX:+UseParallelGC", "-Xmx4g", "-Xss1g",
+           "-cp", "/opt/veriftools/tla/tla2tools.jar:/opt/veriftools/tla/CommunityModules-deps.jar",
+           "tlc2.TLC", "-workers", "1", "-metadir", os.path.join(d, "meta_" + mod), "-noGenerateSpecTE",
+           "-config", mod + ".cfg", mod + ".tla"]
+    p = run(cmd, cwd=d, env=env, timeout=1800, check=False)
+    out = p.stdout or ""
+    if "CONFDONE" not in out:
+        open(os.path.join(d, mod + ".out"), "w").write(out)
+        raise ToolError("TraceConf did not complete for %s (see %s.out)" % (name, mod))
+    drifts = []
+    for line in out.splitlines():
+        m = CONF_RE.match(line.strip())
+        if m:
+            drifts.append((int(m.group(1)), m.group(3).replace('\\"', '"')[:700]))
+    return drifts
+
+
 DIFF_RE = re.compile(r'^"<<\\"(DIFF|SKIP|COMPARED)\\", (\d+), (.*)>>"$')
 
 
@@ -444,6 +471,7 @@ def do_check(pid, plan, tier, seed, d, evid_path, t0):
     binp = build_harness(feats)
     violations = []      # (stage, run, prop, why, replay_path)
     pair_stats = []
+    conf_stats = []
     cex_scheds = []      # counterexamples of "finding" model configs, replayed into the code below
     mc_results = []
     total_states = total_trans = 0
@@ -500,6 +528,13 @@ def do_check(pid, plan, tier, seed, d, evid_path, t0):
         tr, rep = replay(binp, sp, d, g["name"])
         drift += rep["drift"]
         first_drifts += rep["first_drifts"][:2]
+        # whole-trace conformance (including the harness's own run to quiescence), decided by TLC
+        cd = trace_conform(d, g["name"], {k: v for k, v in consts.items()}, tr)
+        conf_stats.append({"stage": g["name"], "runs_not_conforming": len({r for r, _ in cd}),
+                           "first": [t for _, t in cd[:1]]})
+        if cd:
+            log("WARNING stage %s: %d runs are not behaviours of RsActor.tla (TraceConf), e.g. %s" %
+                (g["name"], len({r for r, _ in cd}), cd[0][1][:300]))
         files, nruns, nev = split_trace(tr, d, g["name"], NCPU)
         traces += nruns
         events += nev
@@ -590,7 +625,7 @@ def do_check(pid, plan, tier, seed, d, evid_path, t0):
             "rule": plan.get("rule", ""),
             "samples": samples if samples else [{"note": "no behaviour sample recorded"}],
             "events_validated": events, "model_drift": drift, "first_drifts": first_drifts[:2],
-            "model_configs": mc_results, "extra": extra_cov, "paired_executions": pair_stats,
+            "model_configs": mc_results, "extra": extra_cov, "paired_executions": pair_stats, "trace_conformance": conf_stats,
             "exhaustive": False,
         },
         "assumptions": plan.get("assumptions", []) + [
